@@ -4,7 +4,8 @@ import fcntl
 import os
 import subprocess
 
-EBD = "/repo/data/lib/pkgcore/ebd"
+REPO = os.environ.get("VT_PKGCORE_ROOT") or "/repo"
+EBD = os.path.join(REPO, "data/lib/pkgcore/ebd")
 GEN = os.path.join(EBD, ".generated")
 
 
@@ -20,7 +21,7 @@ def _newest_source():
                     newest = max(newest, os.lstat(os.path.join(dp, fn)).st_mtime)
                 except OSError:
                     pass
-    for extra in ("/repo/src/pkgcore/ebuild/eapi.py", "/repo/src/pkgcore/ebuild/const.py"):
+    for extra in (REPO + "/src/pkgcore/ebuild/eapi.py", REPO + "/src/pkgcore/ebuild/const.py"):
         try:
             newest = max(newest, os.lstat(extra).st_mtime)
         except OSError:
@@ -38,7 +39,7 @@ def _oldest_generated():
 
 
 def ensure_generated(force=False):
-    lock = "/var/tmp/vt-ebd-generated.lock"
+    lock = "/var/tmp/vt-ebd-generated%s.lock" % ("" if REPO == "/repo" else "-" + str(abs(hash(REPO)) % 100000))
     with open(lock, "w") as lf:
         fcntl.flock(lf, fcntl.LOCK_EX)
         old = _oldest_generated() if os.path.isdir(GEN) else None
@@ -46,8 +47,10 @@ def ensure_generated(force=False):
             return False
         env = dict(os.environ, PYTHONDONTWRITEBYTECODE="1")
         env.pop("PYTHONPATH", None)
+        if REPO != "/repo":
+            env["PYTHONPATH"] = REPO + "/src"
         subprocess.run(["make", "-s", "-C", EBD, "clean"], check=True, env=env,
                        stdout=subprocess.DEVNULL)
-        subprocess.run(["make", "-s", "-j8", "-C", EBD, "all", "PYTHON=/venv/bin/python"], check=True, env=env,
+        subprocess.run(["make", "-s", "-j8", "-C", EBD, "all", "PYTHON=/venv/bin/python"] + (["PYTHONPATH=" + REPO + "/src"] if REPO != "/repo" else []), check=True, env=env,
                        stdout=subprocess.DEVNULL)
         return True
